@@ -256,6 +256,8 @@ def run_check(modname, tier, seed, replay=None):
         print("goals:", json.dumps(total.goals, sort_keys=True))
     for l in lines:
         print(l)
+    if hasattr(mod, "cleanup"):
+        mod.cleanup()
     return status
 
 
